@@ -354,7 +354,7 @@ func build(qs []quotaCfg, level int, t0 int64, lim map[int]bool, variant int) (*
 }
 
 // spoeRequest: the lunar-on-request message HAProxy sends for a request.
-func spoeRequest(q int, r string, hdrs map[string]string) *request.Request {
+func spoeRequest(q int, r string, hdrs map[string]string, body int) *request.Request {
 	path := fmt.Sprintf("/f%d", q)
 	var names []string
 	for k := range hdrs {
@@ -368,13 +368,17 @@ func spoeRequest(q int, r string, hdrs map[string]string) *request.Request {
 	keyValues := kv.NewKV()
 	keyValues.Add("id", r)
 	keyValues.Add("sequence_id", r)
-	keyValues.Add("method", "GET")
+	method := "GET"
+	if body > 0 {
+		method = "POST"
+	}
+	keyValues.Add("method", method)
 	keyValues.Add("scheme", "https")
 	keyValues.Add("url", host+path)
 	keyValues.Add("path", path)
 	keyValues.Add("query", "")
 	keyValues.Add("headers", hb.String())
-	keyValues.Add("body", []byte(""))
+	keyValues.Add("body", []byte(bodies[body]))
 	return &request.Request{Messages: &message.Messages{{Name: "lunar-on-request", KV: keyValues}}}
 }
 
@@ -425,11 +429,27 @@ func addCosts(h map[string]string, spec string) bool {
 	return true
 }
 
-func apiStream(q int, r string, hdrs map[string]string) publictypes.APIStreamI {
+// bodies a request may carry (`body=<index>` on the op line).  What a quota counts is read from the headers,
+// whatever the body is: empty, a JSON object, a JSON array, plain text, form-encoded, broken JSON, XML.
+var bodies = []string{
+	"",
+	`{"user":"u1","items":[1,2,3]}`,
+	`[1,2,{"a":"b"}]`,
+	"hello quota",
+	"a=1&b=two&c=%203",
+	`{"user": "u1", "items": [1,2`,
+	"<order><id>7</id></order>",
+}
+
+func apiStream(q int, r string, hdrs map[string]string, body int) publictypes.APIStreamI {
 	path := fmt.Sprintf("/f%d", q)
+	method := "GET"
+	if body > 0 {
+		method = "POST"
+	}
 	return streamtypes.NewRequestAPIStream(messages.OnRequest{
-		ID: r, SequenceID: r, Method: "GET", Scheme: "https",
-		URL: host + path, Path: path, Headers: hdrs,
+		ID: r, SequenceID: r, Method: method, Scheme: "https",
+		URL: host + path, Path: path, Headers: hdrs, RawBody: []byte(bodies[body]),
 	}, lunarcontext.NewMemoryState[[]byte]())
 }
 
@@ -556,8 +576,16 @@ func exec(c proto.Case, o *proto.Out) []string {
 				outs[i] = "err:noquota"
 				continue
 			}
+			body := int64(0)
+			if _, has := proto.KV(f, "body"); has {
+				var okb bool
+				if body, okb = kvI(f, "body"); !okb || int(body) >= len(bodies) {
+					outs[i] = "bad-op"
+					continue
+				}
+			}
 			w.setTime(t)
-			as := apiStream(int(q), "r"+r, hd)
+			as := apiStream(int(q), "r"+r, hd, int(body))
 			if f[0] == "inc" || f[0] == "req" {
 				// input distribution: repeated arrivals of an id; arrivals relative to window boundaries
 				if seenArr[r] {
@@ -587,7 +615,7 @@ func exec(c proto.Case, o *proto.Out) []string {
 					outs[i] = "err:level"
 					continue
 				}
-				sreq := spoeRequest(int(q), "r"+r, hd)
+				sreq := spoeRequest(int(q), "r"+r, hd, int(body))
 				w.handler(sreq)
 				refused := false
 				for _, a := range sreq.Actions {
